@@ -88,7 +88,9 @@ type Env struct {
 	signed  map[string]base.BallotSignFact
 	vps     map[string]base.Voteproof // embedded voteproofs by name
 	vpDesc  map[string]VPDesc         // by voteproof ID
-	vpNames map[string]string         // voteproof ID -> name
+	vpNames map[string][]string       // voteproof ID -> names (an ID is chosen by the sender: it may repeat)
+	vpSums  map[string]string         // name -> content of the voteproof built under that name
+	vpIDs   map[string]base.Voteproof // id label -> the first voteproof built with that label (donor of the ID)
 }
 
 func NewEnv(n int, t10 int) *Env {
@@ -103,7 +105,9 @@ func NewEnv(n int, t10 int) *Env {
 		signed:    map[string]base.BallotSignFact{},
 		vps:       map[string]base.Voteproof{},
 		vpDesc:    map[string]VPDesc{},
-		vpNames:   map[string]string{},
+		vpNames:   map[string][]string{},
+		vpSums:    map[string]string{},
+		vpIDs:     map[string]base.Voteproof{},
 	}
 
 	nodes := make([]base.Node, n)
@@ -304,6 +308,48 @@ type VPSpec struct {
 	T10     int        `json:"t10"`   // threshold written into the voteproof
 	Plain   bool       `json:"plain"` // build a plain voteproof although Ex is not empty
 	ForceMF string     `json:"force"` // "" = majority computed honestly; "draw" / fact name = claimed
+	// ID: a voteproof's ID is a free string chosen by whoever built the message. "" = a fresh ID of its
+	// own; otherwise a label: every voteproof built with the same label carries the ID of the first one
+	// (whatever its content and stage point are).
+	ID string `json:"id"`
+}
+
+// vpSum is the content of a voteproof apart from its ID (ID collisions are told apart by it).
+func vpSum(vp base.Voteproof) string {
+	s := fmt.Sprintf("%T|%s|%s|%v|", vp, vp.Point(), vp.Result(), vp.Threshold())
+	if vp.Majority() != nil {
+		s += vp.Majority().Hash().String()
+	}
+
+	for _, sf := range vp.SignFacts() {
+		s += "|" + sf.Node().String() + ":" + sf.Fact().Hash().String()
+	}
+
+	if w, ok := vp.(base.HasExpels); ok {
+		for _, op := range w.Expels() {
+			s += "|x" + op.Fact().Hash().String()
+		}
+	}
+
+	return s
+}
+
+// NameOf: the name under which the emitted voteproof was embedded in a ballot ("" = never;
+// "?id" = its ID is that of an embedded voteproof but its content is not).
+func (e *Env) NameOf(vp base.Voteproof) string {
+	names := e.vpNames[vp.ID()]
+	if len(names) < 1 {
+		return ""
+	}
+
+	sum := vpSum(vp)
+	for _, n := range names {
+		if e.vpSums[n] == sum {
+			return n
+		}
+	}
+
+	return "?" + names[0]
 }
 
 // Voteproof builds (and caches by name) a really signed voteproof.
@@ -351,34 +397,60 @@ func (e *Env) Voteproof(s VPSpec) base.Voteproof {
 	}
 
 	p := realPoint(s.H, s.R)
+	donor := e.vpIDs[s.ID] // nil: the voteproof gets an ID of its own
 
 	var vp base.Voteproof
 
 	switch {
 	case s.S == sINIT && len(ex) > 0 && !s.Plain:
 		i := isaac.NewINITExpelVoteproof(p)
+		if d, ok := donor.(isaac.INITExpelVoteproof); ok {
+			i = d // a copy: keeps the donor's ID, like a decoded message would
+			_ = i.SetPoint(base.NewStagePoint(p, base.StageINIT))
+		}
+
 		_ = i.SetSignFacts(sfs).SetMajority(majority).SetThreshold(th)
 		_ = i.SetExpels(e.Expels(s.H, ex))
 		_ = i.Finish()
 		vp = i
 	case s.S == sINIT:
 		i := isaac.NewINITVoteproof(p)
+		if d, ok := donor.(isaac.INITVoteproof); ok {
+			i = d
+			_ = i.SetPoint(base.NewStagePoint(p, base.StageINIT))
+		}
+
 		_ = i.SetSignFacts(sfs).SetMajority(majority).SetThreshold(th).Finish()
 		vp = i
 	case len(ex) > 0 && !s.Plain:
 		i := isaac.NewACCEPTExpelVoteproof(p)
+		if d, ok := donor.(isaac.ACCEPTExpelVoteproof); ok {
+			i = d
+			_ = i.SetPoint(base.NewStagePoint(p, base.StageACCEPT))
+		}
+
 		_ = i.SetSignFacts(sfs).SetMajority(majority).SetThreshold(th)
 		_ = i.SetExpels(e.Expels(s.H, ex))
 		_ = i.Finish()
 		vp = i
 	default:
 		i := isaac.NewACCEPTVoteproof(p)
+		if d, ok := donor.(isaac.ACCEPTVoteproof); ok {
+			i = d
+			_ = i.SetPoint(base.NewStagePoint(p, base.StageACCEPT))
+		}
+
 		_ = i.SetSignFacts(sfs).SetMajority(majority).SetThreshold(th).Finish()
 		vp = i
 	}
 
 	e.vps[s.Name] = vp
-	e.vpNames[vp.ID()] = s.Name
+	e.vpNames[vp.ID()] = append(e.vpNames[vp.ID()], s.Name)
+	e.vpSums[s.Name] = vpSum(vp)
+
+	if s.ID != "" && donor == nil {
+		e.vpIDs[s.ID] = vp
+	}
 
 	return vp
 }
